@@ -72,6 +72,25 @@ def run(ctx):
                                    [{"t": "send", "c": "c1", "k": "auth", "u": "u1", "p": "p1", "a": False, "via": via}, {"t": "sleep", "n": 6000},
                                     {"t": "recv"}, {"t": "send", "c": "c2", "k": "list", "u": "", "p": "", "a": False}, {"t": "recv"},
                                     {"t": "send", "c": "c3", "k": "auth", "u": "u2", "p": "p2", "a": False, "via": via}, {"t": "recv"}, {"t": "free"}]})
+    # ... and longer than any round number a caller might give up after (10 s; thorough: 30 s, 60 s): whoever stops waiting,
+    # the dispatcher must go on serving
+    for hold in ([11000] if not thorough else [11000, 31000, 61000]):
+        scenarios.append({"name": "very-slow-turn-%d" % hold, "mode": "", "default": 2, "files": up, "passwords": af.PASSWORDS, "gated": True,
+                          "seed": 1, "forced": False, "filler": 0,
+                          "steps": [{"t": "send", "c": "c1", "k": "auth", "u": "u1", "p": "p1", "a": False}, {"t": "sleep", "n": hold},
+                                    {"t": "recv"}, {"t": "send", "c": "c2", "k": "list", "u": "", "p": "", "a": False}, {"t": "recv"},
+                                    {"t": "send", "c": "c3", "k": "auth", "u": "u2", "p": "p2", "a": False}, {"t": "recv"}, {"t": "free"}]})
+    # a hooks directory that is unusable (world-writable) while many changes are made: whatever the hooks caller does about it,
+    # the notifications must keep being taken off their channel (capacity 32)
+    hd2 = os.path.join(ctx.scratch, "c10-hooks-bad.d")
+    os.makedirs(hd2, exist_ok=True)
+    open(os.path.join(hd2, "10-log"), "w").write("#!/bin/sh\nexit 0\n")
+    os.chmod(os.path.join(hd2, "10-log"), 0o755)
+    scenarios.append({"name": "hooks-dir-unusable-many-changes", "mode": "", "default": 2, "files": up, "passwords": af.PASSWORDS, "gated": False, "seed": 7,
+                      "novalidate": True, "hooks_dir": hd2,
+                      "steps": [{"t": "chmodhooks", "n": 0o777}, {"t": "load", "clients": 4, "calls": 30, "quiet": True, "kinds": ["update", "update", "auth"],
+                                                                  "users": ["u1"], "pws": ["p1", "p3"]},
+                                {"t": "chmodhooks", "n": 0o755}, {"t": "send", "c": "c9", "k": "list", "u": "", "p": "", "a": False}, {"t": "free"}]})
     # reloads on an agent without a hooks directory (the default): the new-store messages must keep being taken off their channel
     scenarios.append({"name": "reloads-without-hooks-dir", "mode": "", "default": 2, "files": up, "passwords": af.PASSWORDS, "gated": False, "seed": 1,
                       "novalidate": True,
